@@ -287,6 +287,26 @@ Proof.
     eapply perm_trans; [apply perm_skip; exact IH|]. apply insert_id_perm.
 Qed.
 
+(* the check of the id lists of a main packet: sorted, and no id listed twice *)
+Lemma ids_adj_distinct_cons2 a b r :
+  ids_adj_distinct (a :: b :: r) = negb (bytes_eqb a b) && ids_adj_distinct (b :: r).
+Proof. reflexivity. Qed.
+
+Lemma nodup_ids_adj_distinct : forall l, NoDup l -> ids_adj_distinct l = true.
+Proof.
+  induction l as [|a r IH]; intros ND; [reflexivity|].
+  destruct r as [|b r']; [reflexivity|].
+  rewrite ids_adj_distinct_cons2. apply NoDup_cons_iff in ND. destruct ND as [Hn ND].
+  rewrite (IH ND). destruct (bytes_eqb a b) eqn:E; [|reflexivity].
+  apply bytes_eqb_eq in E. exfalso. apply Hn. left. symmetry. exact E.
+Qed.
+
+Theorem sort_ids_ok : forall l, NoDup l -> ids_ok (sort_ids l) = true.
+Proof.
+  intros l ND. unfold ids_ok. rewrite sort_ids_sorted. cbn [andb].
+  apply nodup_ids_adj_distinct. eapply Permutation_NoDup; [apply sort_ids_perm|exact ND].
+Qed.
+
 (** * 5. recovery blocks are the specification's sums *)
 Lemma generators_first_length d : N.of_nat d <= 32768 -> length (generators_first d) = d.
 Proof.
@@ -357,4 +377,5 @@ Print Assumptions volume_layout_covers.
 Print Assumptions volume_layout_nonempty.
 Print Assumptions sort_ids_sorted.
 Print Assumptions sort_ids_perm.
+Print Assumptions sort_ids_ok.
 Print Assumptions parity_is_spec_sum.
